@@ -3,4 +3,5 @@ INVARIANT BuildSucceeds
 INVARIANT AllGoalsReachable
 INVARIANT DepsResolve
 INVARIANT OrphansAreRoots
+INVARIANT StructureHonoured
 INVARIANT GoalGraphAsModel
